@@ -78,3 +78,81 @@ def check_pairs(res: Result, db: DB, entry: str, state_keys: Set[str], lit=None,
           Finding("R-PAIR.2", f"{entry}|{key}|derived-left-at-temporary-state|{','.join(stale[:4])}", f"{entry.split('.')[-1]}() recomputes derived data after restoring {key} but {stale[:6]} keep the values computed at the temporary state", effs[r].ev.loc),
         )
   return n
+
+
+def check_composed_restore(res: Result, db: DB, entry: str, state_keys: Set[str], lit=None) -> int:
+  """R-PAIR.3: a public function that *composes* save/restore helpers (set_const = set_const_fixed; set_const_0;
+  set_const_spring; re-run stages) promises, with restore=True, that every Data field evaluated at a temporary state by
+  any nested helper is re-evaluated after the last restore of that state field. Checked on the whole trace (clones at any
+  call depth), first unconditionally (may-write sets), then under a case split on each single configuration atom of the
+  re-run stages: fields *definitely* written at the temporary state must be *possibly* rewritten after the restore."""
+  from .r_flags import FlagEnv
+
+  hi = db.trace(entry, **(lit or {}))
+  effs = effects.trace_effects(db, hi)
+  n = 0
+  for key in sorted(state_keys):
+    clones = [(i, e) for i, e in enumerate(effs) if e.ev.kind == "alloc" and e.ev.name == "clone" and e.ev.src is not None and isinstance(root_array(e.ev.src), Field) and root_array(e.ev.src).key == key]
+    if not clones:
+      continue
+    temps = [e.ev.dst for _, e in clones]
+    restores = [j for j, e in enumerate(effs) if e.ev.kind == "copy" and e.ev.dst is not None and isinstance(root_array(e.ev.dst), Field) and root_array(e.ev.dst).key == key and any(_is(e.ev.src, t) for t in temps)]
+    if not restores:
+      continue
+    first, last = clones[0][0], restores[-1]
+    n += 1
+
+    def written(lo, hi_, env, definite):
+      out = {}
+      for j in range(lo, hi_):
+        e = effs[j]
+        if e.ev.kind in ("alloc",):
+          continue
+        if env is not None:
+          v = env.pc_host(e.ev.pc)
+          if definite and v is not True:
+            continue
+          if not definite and v is False:
+            continue
+        for k in e.writes:
+          if k.startswith("Data.") and k != key:
+            out.setdefault(k, e)
+      return out
+
+    between = written(first, last, None, False)
+    after = written(last + 1, len(effs), None, False)
+    stale = sorted(set(between) - set(after))
+    note = ""
+    if not stale:
+      # case split on one configuration atom of the stages re-run after the restore
+      env0 = FlagEnv("DisableBit.__none__", False)
+      cands = []
+      for j in range(last + 1, len(effs)):
+        for text, _pol in effs[j].ev.pc:
+          for a_ in env0.unknown_atoms(text):
+            if a_ not in cands:
+              cands.append(a_)
+      for a_ in cands[:12]:
+        for v_ in (True, False):
+          env = FlagEnv("DisableBit.__none__", False)
+          env.atoms = {a_: v_}
+          b2 = written(first, last, env, True)
+          a2 = written(last + 1, len(effs), env, False)
+          s2 = sorted(set(b2) - set(a2))
+          if s2:
+            stale, note = s2, f" when `{a_}` is {'true' if v_ else 'false'}"
+            break
+        if stale:
+          break
+    res.ob(
+      not stale,
+      f"{entry}|{key}|composed-restore",
+      Finding(
+        "R-PAIR.3",
+        f"{entry}|{key}|derived-left-at-temporary-state|{','.join(stale[:3])}",
+        f"{entry.split('.')[-1]}(restore=True) evaluates {stale[:6]} while {key} is temporarily overwritten and does not recompute them after the last restore of {key}{note}: the caller is left with derived data of the temporary state",
+        effs[last].ev.loc,
+      ),
+      sample={"function": entry, "state_field": key, "fields_at_temporary_state": len(between), "recomputed_after_restore": len(after)},
+    )
+  return n
